@@ -1373,6 +1373,9 @@ func main() {
 	if all || sections["encoded"] {
 		encodedSection()
 	}
+	if all || sections["grouping"] {
+		groupingSection()
+	}
 	keys := make([]string, 0, len(stats))
 	for k := range stats {
 		keys = append(keys, k)
